@@ -61,17 +61,40 @@ def _header_parse(g):
     return None
 
 
+class Consumer:
+    """one loop of the reader that moves announced names into an accumulator"""
+    def __init__(self, head, counter, acc, form, strict, nexts, apps, decs):
+        self.head, self.counter, self.acc, self.form = head, counter, acc, form
+        self.strict = strict          # running out of lines raises (next() without default)
+        self.nexts, self.apps, self.decs = nexts, apps, decs
+        self.lineno = head.lineno
+
+    def __iter__(self):               # legacy tuple view
+        return iter((self.head, self.counter, self.acc, self.nexts, self.apps, self.decs))
+
+
 def _consumer_loops(ctx, fi, g):
-    """while-loops of the reader that consume one name per iteration:
-    [(loop test node, counter name, accumulator name, next-nodes, append-nodes)] in CFG order"""
+    """loops of the reader that consume one name per iteration, in three recognised forms:
+       while c > 0: c -= 1; x = next(it); acc.append(f(x))          (strict)
+       for _ in range(c): x = next(it); acc.append(f(x))             (strict)
+       for x in islice(it, c): acc.append(f(x))                      (NOT strict: stops silently)"""
     out = []
+    ps = params(fi)
     for n in g.nodes:
-        if n.kind != 'test' or not isinstance(n.stmt, ast.While):
+        if n.kind == 'test' and isinstance(n.stmt, ast.While):
+            t = n.ast
+            if not (isinstance(t, ast.Compare) and isinstance(t.left, ast.Name) and len(t.ops) == 1):
+                continue
+            counter, form = t.left.id, 'while-next'
+        elif n.kind == 'for' and isinstance(n.ast, ast.Call) and dotted(n.ast.func) in (
+                'islice', 'itertools.islice') and len(n.ast.args) == 2 and \
+                isinstance(n.ast.args[1], ast.Name):
+            counter, form = n.ast.args[1].id, 'for-islice'
+        elif n.kind == 'for' and isinstance(n.ast, ast.Call) and dotted(n.ast.func) == 'range' and \
+                len(n.ast.args) == 1 and isinstance(n.ast.args[0], ast.Name):
+            counter, form = n.ast.args[0].id, 'for-range-next'
+        else:
             continue
-        t = n.ast
-        if not (isinstance(t, ast.Compare) and isinstance(t.left, ast.Name) and len(t.ops) == 1):
-            continue
-        counter = t.left.id
         body_nodes = g.reach([d for d, k in g.succ[n.id] if k == 'true'], avoid={n.id},
                              include_start=True) & g.loop_nodes(n.id)
         nexts = [b for b in body_nodes if any(dotted(c.func) == 'next' for c in node_calls(g, b))]
@@ -80,14 +103,17 @@ def _consumer_loops(ctx, fi, g):
         for b in body_nodes:
             for c in node_calls(g, b):
                 if isinstance(c.func, ast.Attribute) and c.func.attr == 'append' and \
-                        isinstance(c.func.value, ast.Name) and c.func.value.id in params(fi):
+                        isinstance(c.func.value, ast.Name) and c.func.value.id in ps:
                     apps.append(b)
                     acc = c.func.value.id
         decs = [b for b in body_nodes if g.node(b).kind == 'stmt' and
                 isinstance(g.node(b).ast, ast.AugAssign) and is_name(g.node(b).ast.target, counter)
                 and isinstance(g.node(b).ast.op, ast.Sub)]
-        if nexts and apps:
-            out.append((n, counter, acc, nexts, apps, decs))
+        if not apps or (form != 'for-islice' and not nexts):
+            continue
+        strict = form != 'for-islice' and all(
+            len(c.args) == 1 for b in nexts for c in node_calls(g, b) if dotted(c.func) == 'next')
+        out.append(Consumer(n, counter, acc, form, strict, nexts, apps, decs))
     return out
 
 
@@ -141,7 +167,7 @@ def r1_r2_wire(ctx, rep, R1='C07.R1', R2='C07.R2'):
                 worder.append((st.lineno, d.split('.')[-1], len(pr)))
     worder.sort()
     rorder = [acc for lp, counter, acc, nexts, apps, decs in
-              sorted(loops, key=lambda x: x[0].lineno)]
+              sorted(loops, key=lambda x: x.lineno)]
     okb = [x[1] for x in worder] == rorder == ['failures', 'errors'] and \
         all(x[2] == 1 for x in worder)
     rep.check(okb, R2, 'name blocks: writer %s, reader %s' % ([x[1] for x in worder], rorder),
@@ -149,32 +175,38 @@ def r1_r2_wire(ctx, rep, R1='C07.R1', R2='C07.R2'):
               % (worder, rorder), key='body-order', func=READER, where=ctx.where(r, r.node))
     # dominance: first consumer loop entirely before the second, both after the header parse
     if len(loops) >= 2 and hp is not None:
-        loops.sort(key=lambda x: x[0].lineno)
+        loops.sort(key=lambda x: x.lineno)
         dom = g.dominators()
-        a, b = loops[0][0].id, loops[1][0].id
+        a, b = loops[0].head.id, loops[1].head.id
         hl = [n.id for n in g.nodes if n.kind == 'for' and hp.id in g.reach(
             [d for d, k in g.succ[n.id] if k == 'true'], avoid={n.id}, include_start=True)]
         rep.check(bool(hl) and hl[-1] in dom[a] and a in dom[b] and a not in g.reach([b]) and
                   hl[-1] not in g.reach([a]), R2,
                   'reader: header search -> failures loop -> errors loop (dominance)',
                   'the consumer loops are not sequenced after the header parse',
-                  key='body-dominance', func=READER, where=ctx.where(r, loops[0][0].stmt))
-    for lp, counter, acc, nexts, apps, decs in loops:
+                  key='body-dominance', func=READER, where=ctx.where(r, loops[0].head.stmt))
+    for cons in loops:
+        lp, counter, acc, nexts, apps, decs = cons
         body = [d for d, k in g.succ[lp.id] if k == 'true']
         one = True
-        for group in (nexts, apps, decs):
+        groups = {'while-next': (nexts, apps, decs), 'for-range-next': (nexts, apps),
+                  'for-islice': (apps,)}[cons.form]
+        for group in groups:
             # exactly once per iteration: every path body->head passes the group, and no
             # member reaches another member without passing the head
             okp, _ = g.every_path_passes(body, [lp.id], set(group), include_start=True,
                                          edge_ok=lambda s, d, k: k != 'exc')
             twice = any(y in g.reach([x], avoid={lp.id}) for x in group for y in group)
             one = one and okp and not twice and bool(group)
-        pos_ok = isinstance(lp.ast.ops[0], ast.Gt) and isinstance(lp.ast.comparators[0], ast.Constant) \
-            and lp.ast.comparators[0].value == 0
-        dec_ok = all(isinstance(g.node(d).ast.value, ast.Constant) and g.node(d).ast.value.value == 1
-                     for d in decs)
-        rep.check(one and pos_ok and dec_ok, R2, 'reader loop for %s: one next(), one append, '
-                  'counter -1 per entry, runs while counter > 0' % acc,
+        if cons.form == 'while-next':
+            pos_ok = isinstance(lp.ast.ops[0], ast.Gt) and \
+                isinstance(lp.ast.comparators[0], ast.Constant) and lp.ast.comparators[0].value == 0
+            dec_ok = all(isinstance(g.node(d).ast.value, ast.Constant) and
+                         g.node(d).ast.value.value == 1 for d in decs)
+        else:
+            pos_ok = dec_ok = not decs
+        rep.check(one and pos_ok and dec_ok, R2, 'reader loop for %s (%s): one line consumed and one '
+                  'entry appended per announced entry' % (acc, cons.form),
                   'the loop that fills %s does not consume exactly one line per announced entry' % acc,
                   key='consumer:' + str(acc), func=READER, where=ctx.where(r, lp.stmt))
         # what is appended is the decoded line just read
@@ -186,6 +218,8 @@ def r1_r2_wire(ctx, rep, R1='C07.R1', R2='C07.R2'):
                 if isinstance(x, ast.Name):
                     src.add(x.id)
             nxt_targets = set()
+            if cons.form == 'for-islice':
+                nxt_targets |= {x.id for x in ast.walk(lp.stmt.target) if isinstance(x, ast.Name)}
             for nx in nexts:
                 st = g.node(nx).ast
                 if isinstance(st, ast.Assign):
@@ -366,6 +400,15 @@ def r4_fail_closed(ctx, rep, R='C07.R4'):
               'when no line of the child\'s stderr parses as a header the reader can finish '
               'without recording an error', key='no-header', func=fi.qualname,
               where=ctx.where(fi, hp.ast))
+    # a report that ends before all announced names were read must not be accepted silently
+    for cons in _consumer_loops(ctx, fi, g):
+        rep.check(cons.strict, R, 'reader loop for %s notices a report that is cut short '
+                  '(next() raises when the lines run out)' % cons.acc,
+                  'the loop that fills %s (%s) simply stops when the child\'s report ends early: '
+                  'fewer names than the header announced are accepted as a complete report, so a '
+                  'child that died after the header line leaves no error' % (cons.acc, cons.form),
+                  key='truncation:' + str(cons.acc), func=fi.qualname,
+                  where=ctx.where(fi, cons.head.stmt))
     # the names are only consumed after a successful header parse (nothing partial is trusted):
     # a ValueError at the parse must not fall through to the consumer loops with stale counters
     cfgq = ctx.cfg(fi)
